@@ -220,3 +220,25 @@ func sortedKeys[V any](m map[string]V) []string {
 	sort.Strings(ks)
 	return ks
 }
+
+// lookupVSort finds the Go struct type behind a value sort name "V_<pkgname>_<Type>".
+func (e *Engine) lookupVSort(s string) types.Type {
+	rest := strings.TrimPrefix(s, "V_")
+	for _, p := range e.pkgs {
+		if p.Types == nil {
+			continue
+		}
+		pre := p.Types.Name() + "_"
+		if !strings.HasPrefix(rest, pre) {
+			continue
+		}
+		if obj := p.Types.Scope().Lookup(strings.TrimPrefix(rest, pre)); obj != nil {
+			if tn, ok := obj.(*types.TypeName); ok {
+				if _, isStruct := tn.Type().Underlying().(*types.Struct); isStruct {
+					return tn.Type()
+				}
+			}
+		}
+	}
+	return nil
+}
